@@ -1335,6 +1335,214 @@ pub fn castnest_directed_programs() -> Vec<(&'static str, Program)> {
     v
 }
 
+// ---------------------------------------------------------------------------------------------------
+// loads (stores, assignments) that read the register they overwrite (dead variable elimination)
+//
+// `R = <non-foldable expression>; R = load [.. R ..]`: the load reads `R` before it overwrites it, so the earlier
+// assignment is alive. Non-foldable: self-dependent, or defined differently on two predecessors (otherwise
+// expression propagation inlines it into the address and the assignment really is dead).
+
+/// an address expression (8 bytes) that reads the 8-byte expression `r`
+fn self_address(rng: &mut Rng, r: Expression, avoid: &str) -> Expression {
+    use BinOpType::*;
+    let others: Vec<&str> = REG8.iter().copied().filter(|x| *x != avoid).collect();
+    match rng.below(5) {
+        0 => r,
+        1 => e_bin(IntAdd, r, e_const(*rng.pick(&[8u64, 0x10, 0xfffffffffffffff8]), 8)),
+        2 => e_bin(IntAdd, e_bin(IntLeft, r, e_const(3, 8)), e_var(*rng.pick(&others), 8)),
+        3 => e_bin(IntSub, e_var("RSP", 8), e_bin(IntAnd, r, e_const(0xf8, 8))),
+        _ => e_bin(IntAdd, e_var(*rng.pick(&others), 8), r),
+    }
+}
+
+pub fn gen_loadself_function(rng: &mut Rng, idx: usize, counts: &mut BTreeMap<String, u64>) -> Term<Sub> {
+    use BinOpType::*;
+    let fname = format!("sub_{}", idx);
+    let bn = |i: usize| format!("s{}_b{}", idx, i);
+    let mut count = |k: &str| *counts.entry(k.to_string()).or_insert(0) += 1;
+    let r = *rng.pick(&REG8);
+    let others: Vec<&str> = REG8.iter().copied().filter(|x| *x != r).collect();
+    let rv = || e_var(r, 8);
+    let ret = |t: &str| j_return(t, e_const(0x401000, 8));
+    // the overwriting def: a load, or (less often) an assignment that reads the register
+    let kind = rng.below(4);
+    let over = |rng: &mut Rng, t: &str| -> Term<Def> {
+        if kind < 3 {
+            d_load(t, var(r, 8), self_address(rng, rv(), r))
+        } else {
+            d_assign(t, var(r, 8), e_bin(*rng.pick(&[IntAdd, IntXOr, IntSub]), rv(), e_var(*rng.pick(&others), 8)))
+        }
+    };
+    count(if kind < 3 { "loadself:load" } else { "loadself:assign" });
+    // what makes the register observable afterwards
+    let observe = |rng: &mut Rng, bname: &str, dn: usize| -> (Vec<Term<Def>>, Vec<Term<Jmp>>) {
+        match rng.below(4) {
+            0 => (vec![d_store(&format!("{}_d{}", bname, dn), e_bin(IntSub, e_var("RSP", 8), e_const(8, 8)), rv())], vec![ret(&format!("{}_j0", bname))]),
+            1 => (vec![], vec![j_return(&format!("{}_j0", bname), rv())]),
+            2 => (vec![d_store(&format!("{}_d{}", bname, dn), rv(), e_var(*rng.pick(&others), 8))], vec![ret(&format!("{}_j0", bname))]),
+            _ => (vec![], vec![ret(&format!("{}_j0", bname))]), // a physical register at the return site
+        }
+    };
+    let mut blocks = Vec::new();
+    match rng.below(3) {
+        0 => {
+            // one block; a store between the two defs keeps them from being merged
+            count("loadself:local");
+            let mut d = vec![d_assign(&format!("{}_d0", bn(0)), var(r, 8), cycle_fn(rng, r, &[]))];
+            let mut dn = 1;
+            if kind == 3 || rng.chance(1, 2) {
+                d.push(d_store(&format!("{}_d1", bn(0)), e_bin(IntSub, e_var("RSP", 8), e_const(0x20, 8)), e_var(*rng.pick(&others), 8)));
+                dn = 2;
+            }
+            d.push(over(rng, &format!("{}_d{}", bn(0), dn)));
+            let (od, oj) = observe(rng, &bn(0), dn + 1);
+            d.extend(od);
+            blocks.push(blk(&bn(0), d, oj));
+        }
+        1 => {
+            // across a jump
+            count("loadself:jump");
+            blocks.push(blk(&bn(0), vec![d_assign(&format!("{}_d0", bn(0)), var(r, 8), cycle_fn(rng, r, &[]))], vec![j_branch(&format!("{}_j0", bn(0)), &bn(1))]));
+            let mut d = vec![over(rng, &format!("{}_d0", bn(1)))];
+            let (od, oj) = observe(rng, &bn(1), 1);
+            d.extend(od);
+            blocks.push(blk(&bn(1), d, oj));
+        }
+        _ => {
+            // defined differently on the two predecessors
+            count("loadself:diamond");
+            blocks.push(blk(&bn(0), vec![], vec![j_cbranch(&format!("{}_j0", bn(0)), &bn(1), e_var(*rng.pick(&FLAGS), 1)), j_branch(&format!("{}_j1", bn(0)), &bn(2))]));
+            let o1 = *rng.pick(&others);
+            let o2 = *rng.pick(&others);
+            blocks.push(blk(&bn(1), vec![d_assign(&format!("{}_d0", bn(1)), var(r, 8), e_bin(IntAdd, e_var(o1, 8), e_const(1 + rng.below(64), 8)))], vec![j_branch(&format!("{}_j0", bn(1)), &bn(3))]));
+            blocks.push(blk(&bn(2), vec![d_assign(&format!("{}_d0", bn(2)), var(r, 8), e_bin(IntSub, e_var(o2, 8), e_const(2 + rng.below(64), 8)))], vec![j_branch(&format!("{}_j0", bn(2)), &bn(3))]));
+            let mut d = vec![over(rng, &format!("{}_d0", bn(3)))];
+            let (od, oj) = observe(rng, &bn(3), 1);
+            d.extend(od);
+            blocks.push(blk(&bn(3), d, oj));
+        }
+    }
+    sub(&fname, &fname, blocks, Some("__stdcall"))
+}
+
+/// directed programs for loads / stores / assignments that read the register they overwrite (always run by
+/// h_c10, and kept in corpus/C10)
+pub fn loadself_directed_programs() -> Vec<(&'static str, Program)> {
+    use BinOpType::*;
+    let ext = || vec![extern_symbol("ext_a", "ext_a", vec![], vec![], false)];
+    let one_fn = |blocks: Vec<Term<Blk>>| program(vec![sub("sub_0", "sub_0", blocks, Some("__stdcall"))], ext(), vec![tid("sub_0")]);
+    let r = |n: &str| e_var(n, 8);
+    let ret = |t: &str| j_return(t, e_const(0x401000, 8));
+    let slot = |k: u64| e_bin(IntSub, e_var("RSP", 8), e_const(k, 8));
+    let w1 = || Expression::Var(tmp("$W1", 4));
+    let mut v = Vec::new();
+    // `RAX = RAX + RCX; RAX = load [RAX + 8]` in one block
+    v.push((
+        "dve-load-self-address",
+        one_fn(vec![blk(
+            "b0",
+            vec![
+                d_assign("b0_d0", var("RAX", 8), e_bin(IntAdd, r("RAX"), r("RCX"))),
+                d_load("b0_d1", var("RAX", 8), e_bin(IntAdd, r("RAX"), e_const(8, 8))),
+                d_store("b0_d2", slot(8), r("RAX")),
+            ],
+            vec![ret("b0_j0")],
+        )]),
+    ));
+    // `RDI = load [RDI]` exactly, the register is copied and returned
+    v.push((
+        "dve-load-self-plain",
+        one_fn(vec![blk(
+            "b0",
+            vec![
+                d_assign("b0_d0", var("RDI", 8), e_bin(IntSub, r("RDI"), r("RBP"))),
+                d_load("b0_d1", var("RDI", 8), r("RDI")),
+                d_assign("b0_d2", var("RAX", 8), r("RDI")),
+            ],
+            vec![j_return("b0_j0", r("RDI"))],
+        )]),
+    ));
+    // across a jump: self-dependent assignment, then the load in the successor
+    v.push((
+        "dve-load-self-jump",
+        one_fn(vec![
+            blk("b0", vec![d_assign("b0_d0", var("RBX", 8), e_bin(IntXOr, r("RBX"), r("RDX")))], vec![j_branch("b0_j0", "b1")]),
+            blk(
+                "b1",
+                vec![d_load("b1_d0", var("RBX", 8), e_bin(IntAdd, r("RBX"), e_const(0x10, 8))), d_store("b1_d1", r("RBX"), r("RCX"))],
+                vec![j_return("b1_j0", r("RBX"))],
+            ),
+        ]),
+    ));
+    // defined differently on the two predecessors; the address mentions the register inside a larger expression
+    v.push((
+        "dve-load-self-diamond",
+        one_fn(vec![
+            blk("b0", vec![], vec![j_cbranch("b0_j0", "b1", e_var("ZF", 1)), j_branch("b0_j1", "b2")]),
+            blk("b1", vec![d_assign("b1_d0", var("RSI", 8), e_bin(IntAdd, r("RCX"), e_const(1, 8)))], vec![j_branch("b1_j0", "b3")]),
+            blk("b2", vec![d_assign("b2_d0", var("RSI", 8), e_bin(IntSub, r("RDX"), e_const(2, 8)))], vec![j_branch("b2_j0", "b3")]),
+            blk(
+                "b3",
+                vec![
+                    d_load("b3_d0", var("RSI", 8), e_bin(IntAdd, e_bin(IntLeft, r("RSI"), e_const(3, 8)), r("RDI"))),
+                    d_store("b3_d1", slot(16), r("RSI")),
+                ],
+                vec![ret("b3_j0")],
+            ),
+        ]),
+    ));
+    // a 4-byte register (temporary) defined on both arms, then a 4-byte load through it
+    v.push((
+        "dve-load-self-4byte",
+        one_fn(vec![
+            blk("b0", vec![], vec![j_cbranch("b0_j0", "b1", e_var("CF", 1)), j_branch("b0_j1", "b2")]),
+            blk("b1", vec![d_assign("b1_d0", tmp("$W1", 4), e_sub(0, 4, r("RCX")))], vec![j_branch("b1_j0", "b3")]),
+            blk("b2", vec![d_assign("b2_d0", tmp("$W1", 4), e_sub(4, 4, r("RDX")))], vec![j_branch("b2_j0", "b3")]),
+            blk(
+                "b3",
+                vec![
+                    d_load("b3_d0", tmp("$W1", 4), e_bin(IntAdd, e_cast(CastOpType::IntZExt, 8, w1()), e_const(0x10, 8))),
+                    d_store("b3_d1", slot(8), w1()),
+                ],
+                vec![ret("b3_j0")],
+            ),
+        ]),
+    ));
+    // 4-byte, one block: self-dependent (kept apart by a store), then the load
+    v.push((
+        "dve-load-self-4byte-local",
+        one_fn(vec![blk(
+            "b0",
+            vec![
+                d_assign("b0_d0", tmp("$W1", 4), e_sub(0, 4, r("RBX"))),
+                d_store("b0_d1", slot(0x20), r("RCX")),
+                d_assign("b0_d2", tmp("$W1", 4), e_bin(IntAdd, w1(), e_sub(0, 4, r("RSI")))),
+                d_load("b0_d3", tmp("$W1", 4), e_cast(CastOpType::IntZExt, 8, w1())),
+                d_assign("b0_d4", var("RAX", 8), e_cast(CastOpType::IntZExt, 8, w1())),
+            ],
+            vec![ret("b0_j0")],
+        )]),
+    ));
+    // the analogous assignment and store shapes: `R = R op x` after an assignment that looks dead, and a store
+    // whose address and value read the register that is overwritten afterwards
+    v.push((
+        "dve-assign-store-self",
+        one_fn(vec![blk(
+            "b0",
+            vec![
+                d_assign("b0_d0", var("RDX", 8), e_bin(IntXOr, r("RDX"), r("RCX"))),
+                d_store("b0_d1", slot(8), r("RBX")),
+                d_assign("b0_d2", var("RDX", 8), e_bin(IntAdd, r("RDX"), r("RSI"))),
+                d_assign("b0_d3", var("R8", 8), e_bin(IntAdd, r("R8"), e_const(1, 8))),
+                d_store("b0_d4", r("R8"), r("R8")),
+                d_assign("b0_d5", var("R8", 8), e_const(0, 8)),
+            ],
+            vec![ret("b0_j0")],
+        )]),
+    ));
+    v
+}
+
 /// directed programs for the assignment-cycle shape (always run by h_c10, and kept in corpus/C10)
 pub fn cycle_directed_programs() -> Vec<(&'static str, Program)> {
     use BinOpType::*;
@@ -1440,6 +1648,12 @@ pub fn gen_program(rng: &mut Rng, flavor: Flavor, counts: &mut BTreeMap<String, 
         if nsubs == 2 {
             subs.push(gen_function(rng, 1, &shape, flavor, counts));
         }
+        let externs = vec![extern_symbol("ext_a", "ext_a", vec![], vec![], false), extern_symbol("ext_b", "ext_b", vec![], vec![], false)];
+        return program(subs, externs, vec![tid("sub_0")]);
+    }
+    if flavor == Flavor::Behaviour && rng.chance(1, 12) {
+        // a load / assignment that reads the register it overwrites, after a non-foldable assignment to it
+        let subs = vec![gen_loadself_function(rng, 0, counts)];
         let externs = vec![extern_symbol("ext_a", "ext_a", vec![], vec![], false), extern_symbol("ext_b", "ext_b", vec![], vec![], false)];
         return program(subs, externs, vec![tid("sub_0")]);
     }
@@ -1678,6 +1892,7 @@ pub fn crafted_programs() -> Vec<(&'static str, Program)> {
     ));
     v.extend(cycle_directed_programs());
     v.extend(castnest_directed_programs());
+    v.extend(loadself_directed_programs());
     v.push(sa(
         "sa-align-8",
         vec![
